@@ -85,7 +85,8 @@ func parseDirLine(trimmed string, fo *fullOpts) {
 // optsAbove: the @genqlient directives on the comment lines directly above `line` (1-based).
 func optsAbove(text string, line int) *fullOpts {
 	fo := &fullOpts{fors: map[string]*opts{}}
-	lines := strings.Split(text, "\n")
+	// lines in the GraphQL sense: "\n", "\r\n" and a bare "\r" end a line
+	lines := strings.Split(strings.NewReplacer("\r\n", "\n", "\r", "\n").Replace(text), "\n")
 	for i := line - 1; i > 0; i-- {
 		if i-1 >= len(lines) {
 			break
